@@ -27,7 +27,14 @@ import (
 	"verif/symgo/interp"
 )
 
-const repoDir = "/repo"
+// repoDir is /repo; $VERIF_REPO points background validation runs at a snapshot
+// of it (the registered commands never set it).
+var repoDir = func() string {
+	if d := os.Getenv("VERIF_REPO"); d != "" {
+		return d
+	}
+	return "/repo"
+}()
 
 // verifDir is /verif unless $VERIF_DIR points elsewhere (background runs from a snapshot).
 var verifDir = func() string {
@@ -773,7 +780,7 @@ func runProperty(prop *Property, tier, replayPath string, workers int, solver st
 	}
 	ev.WallS = round2(time.Since(t0).Seconds())
 	ev.Violations = allViolations
-	if prop.ID != "DEV" {
+	if prop.ID != "DEV" && os.Getenv("VERIF_NO_EVIDENCE") == "" {
 		os.MkdirAll(filepath.Join(verifDir, "evidence"), 0o755)
 		b, _ := json.MarshalIndent(ev, "", " ")
 		os.WriteFile(filepath.Join(verifDir, "evidence", prop.ID+".json"), b, 0o644)
